@@ -359,7 +359,7 @@ class OpsMixin(object):
             if a is b or (isinstance(a, bool) and a == b):
                 return a
             return Cond("phi", base.cond, Const(a) if isinstance(a, bool) else a, Const(b) if isinstance(b, bool) else b)
-        if isinstance(base, (Num, Const, ListV, DictV)):
+        if isinstance(base, (Num, Const, ListV, DictV, NTClassV, ModV, ExtV)):
             return False
         raise AnalysisError("hasattr on %r" % (base,))
 
